@@ -115,3 +115,487 @@ def search_C15(rng, deadline, broken):
 def replay_C15(fi):
     a = fi["args"]
     return _c15_checks(datetime.date.fromisoformat(a["date"]), a["h"], a["m"], a["s"]) is None
+
+
+# ------------------------------------------------------------------ shared helpers
+def _sun_inputs(rng):
+    import gens
+    import zones
+    d0 = gens.rand_date(rng, wide=False)
+    z = zones.rand_zone(rng, d0)
+    d = gens.rand_date(rng, z, wide=False) if z.iana else d0
+    o = gens.rand_observer(rng)
+    return o, d, z
+
+
+def _descr(o, d, z, **kw):
+    import gens
+    r = {"observer": gens.obs_descr(o), "date": d.isoformat(), "zone": z.describe()}
+    r.update(kw)
+    return r
+
+
+def _zone_from_descr(s):
+    import zones
+    if s.startswith("fixed"):
+        return zones.fixed(int(s[5:]))
+    return zones.iana(s)
+
+
+def _obs_from_descr(dd):
+    from astral import Observer
+    e = dd["elevation"]
+    return Observer(dd["latitude"], dd["longitude"], tuple(e) if isinstance(e, list) else e)
+
+
+# ------------------------------------------------------------------ C03
+def _c03_one(o, d, z, fn, extra):
+    """returns None if the property holds for this call, else a description"""
+    import astral.sun as sun
+    import astral.moon as moon
+    from astral import SunDirection
+    tz = z.tzinfo
+    di = SunDirection.RISING if extra.get("dir", 1) == 1 else SunDirection.SETTING
+    try:
+        if fn in ("dawn", "dusk"):
+            v = [getattr(sun, fn)(o, d, extra["dep"], tz)]
+        elif fn in ("sunrise", "sunset"):
+            v = [getattr(sun, fn)(o, d, tz)]
+        elif fn == "time_at_elevation":
+            v = [sun.time_at_elevation(o, extra["el"], d, di, tz)]
+        elif fn in ("moonrise", "moonset"):
+            r = getattr(moon, fn)(o, d, tz)
+            v = [] if r is None else [r]
+        elif fn == "daylight":
+            v = list(sun.daylight(o, d, tz))
+        elif fn == "night":
+            s, e = sun.night(o, d, tz)
+            if e.astimezone(tz).date() != d + datetime.timedelta(days=1):
+                return "night ends on %s, not on the day after %s" % (e.astimezone(tz).date(), d)
+            v = [s]
+        elif fn in ("twilight", "golden_hour", "blue_hour"):
+            v = list(getattr(sun, fn)(o, d, di, tz))
+        else:
+            return None
+    except ValueError:
+        return None
+    for t in v:
+        if t.astimezone(tz).date() != d:
+            return "%s returned %s, which is on %s in the requested zone, not on %s" % (
+                fn, t.isoformat(), t.astimezone(tz).date(), d)
+    return None
+
+
+C03_FUNCS = ["dawn", "dusk", "sunrise", "sunset", "time_at_elevation", "moonrise", "moonset",
+             "daylight", "night", "twilight", "golden_hour", "blue_hour"]
+
+
+def search_C03(rng, deadline, broken):
+    import gens
+    while time.time() < deadline:
+        o, d, z = _sun_inputs(rng)
+        for fn in C03_FUNCS:
+            extra = {"dep": gens.rand_depression(rng), "el": rng.choice([6.0, -6.0, -4.0, rng.uniform(-18, 60)]),
+                     "dir": rng.choice([1, -1])}
+            try:
+                r = _c03_one(o, d, z, fn, extra)
+            except Exception as exc:  # noqa: BLE001
+                r = "%s raised %r (neither a time on the date, nor ValueError/None)" % (fn, exc)
+            if r:
+                return _descr(o, d, z, function=fn, extra=extra, clause=r)
+    return None
+
+
+def replay_C03(fi):
+    z = _zone_from_descr(fi["zone"])
+    o = _obs_from_descr(fi["observer"])
+    return _c03_one(o, datetime.date.fromisoformat(fi["date"]), z, fi["function"], fi["extra"]) is None
+
+
+# ------------------------------------------------------------------ C07
+def _try(f):
+    try:
+        return ("ok", f())
+    except ValueError as e:
+        return ("err", str(e)[:40])
+
+
+def _c07_one(o, d, z, di_i, daytime):
+    import astral.sun as sun
+    from astral import SunDirection
+    tz = z.tzinfo
+    di = SunDirection.RISING if di_i == 1 else SunDirection.SETTING
+    one = datetime.timedelta(days=1)
+
+    def same(a, b, what):
+        if a[0] != b[0]:
+            return "%s: period %s but primitives %s" % (what, a, b)
+        if a[0] == "ok" and tuple(a[1]) != tuple(b[1]):
+            return "%s: period %s differs from primitives %s" % (what, [str(x) for x in a[1]],
+                                                                 [str(x) for x in b[1]])
+        return None
+    checks = [
+        (_try(lambda: sun.daylight(o, d, tz)),
+         _try(lambda: (sun.sunrise(o, d, tz), sun.sunset(o, d, tz))), "daylight=(sunrise,sunset)"),
+        (_try(lambda: sun.night(o, d, tz)),
+         _try(lambda: (sun.dusk(o, d, 6, tz), sun.dawn(o, d + one, 6, tz))), "night=(dusk,next dawn)"),
+    ]
+    if di_i == 1:
+        checks.append((_try(lambda: sun.twilight(o, d, di, tz)),
+                       _try(lambda: (sun.dawn(o, d, 6, tz), sun.sunrise(o, d, tz))),
+                       "rising twilight=(civil dawn,sunrise)"))
+        checks.append((_try(lambda: sun.blue_hour(o, d, di, tz)),
+                       _try(lambda: (sun.time_at_elevation(o, -6, d, di, tz),
+                                     sun.time_at_elevation(o, -4, d, di, tz))), "blue hour rising"))
+        checks.append((_try(lambda: sun.golden_hour(o, d, di, tz)),
+                       _try(lambda: (sun.time_at_elevation(o, -4, d, di, tz),
+                                     sun.time_at_elevation(o, 6, d, di, tz))), "golden hour rising"))
+    else:
+        checks.append((_try(lambda: sun.twilight(o, d, di, tz)),
+                       _try(lambda: (sun.sunset(o, d, tz), sun.dusk(o, d, 6, tz))),
+                       "setting twilight=(sunset,civil dusk)"))
+        checks.append((_try(lambda: sun.blue_hour(o, d, di, tz)),
+                       _try(lambda: (sun.time_at_elevation(o, -4, d, di, tz),
+                                     sun.time_at_elevation(o, -6, d, di, tz))), "blue hour setting"))
+        checks.append((_try(lambda: sun.golden_hour(o, d, di, tz)),
+                       _try(lambda: (sun.time_at_elevation(o, 6, d, di, tz),
+                                     sun.time_at_elevation(o, -4, d, di, tz))), "golden hour setting"))
+    for a, b, what in checks:
+        # the error *kind* of a period may legitimately be that of its first failing primitive
+        if a[0] == "err" and b[0] == "err":
+            continue
+        r = same(a, b, what)
+        if r:
+            return r
+    dep = 6.0
+    bundle = _try(lambda: sun.sun(o, d, dep, tz))
+    if bundle[0] == "ok":
+        prim = {"dawn": sun.dawn(o, d, dep, tz), "sunrise": sun.sunrise(o, d, tz),
+                "noon": sun.noon(o, d, tz), "sunset": sun.sunset(o, d, tz),
+                "dusk": sun.dusk(o, d, dep, tz)}
+        if set(bundle[1].keys()) != set(prim.keys()):
+            return "sun() keys %s" % sorted(bundle[1].keys())
+        for k in prim:
+            if bundle[1][k] != prim[k]:
+                return "sun()[%s]=%s differs from %s()=%s" % (k, bundle[1][k], k, prim[k])
+    # ordering
+    n = _try(lambda: sun.night(o, d, tz))
+    if n[0] == "ok" and not n[1][0] < n[1][1]:
+        return "night starts %s after it ends %s" % n[1]
+    noon = sun.noon(o, d, tz)
+    lim = datetime.timedelta(hours=11.5)
+    for name, f in (("daylight", lambda: sun.daylight(o, d, tz)),
+                    ("twilight", lambda: sun.twilight(o, d, di, tz)),
+                    ("golden_hour", lambda: sun.golden_hour(o, d, di, tz)),
+                    ("blue_hour", lambda: sun.blue_hour(o, d, di, tz))):
+        p = _try(f)
+        if p[0] == "ok" and abs(p[1][0] - noon) <= lim and abs(p[1][1] - noon) <= lim:
+            if not p[1][0] < p[1][1]:
+                return "%s starts %s not before it ends %s" % (name, p[1][0], p[1][1])
+    # rahukaalam
+    r = _try(lambda: sun.rahukaalam(o, d, daytime, tz))
+    if r[0] == "ok":
+        if daytime:
+            s, e = sun.sunrise(o, d, tz), sun.sunset(o, d, tz)
+        else:
+            s, e = sun.sunset(o, d, tz), sun.sunrise(o, d + one, tz)
+        span = (e.astimezone(datetime.timezone.utc) - s.astimezone(datetime.timezone.utc))
+        if datetime.timedelta(0) <= span < one:
+            eighth = span / 8
+            k = [1, 6, 4, 5, 3, 2, 7][d.weekday()]
+            tol = datetime.timedelta(seconds=2)
+            if abs((r[1][0] - s) - k * eighth) > tol or abs((r[1][1] - r[1][0]) - eighth) > tol:
+                return "rahukaalam %s..%s is not eighth #%d of %s..%s" % (r[1][0], r[1][1], k, s, e)
+    return None
+
+
+def search_C07(rng, deadline, broken):
+    while time.time() < deadline:
+        o, d, z = _sun_inputs(rng)
+        di = rng.choice([1, -1])
+        daytime = rng.random() < 0.5
+        try:
+            r = _c07_one(o, d, z, di, daytime)
+        except ValueError:
+            continue
+        except Exception as exc:  # noqa: BLE001
+            r = "raised %r" % (exc,)
+        if r:
+            return _descr(o, d, z, dir=di, daytime=daytime, clause=r)
+    return None
+
+
+def replay_C07(fi):
+    z = _zone_from_descr(fi["zone"])
+    o = _obs_from_descr(fi["observer"])
+    try:
+        return _c07_one(o, datetime.date.fromisoformat(fi["date"]), z, fi["dir"], fi["daytime"]) is None
+    except ValueError:
+        return True
+
+
+# ------------------------------------------------------------------ C16
+def _c16_parse_case(deg, mn, sc, dr, marks, lim):
+    import astral
+    s = "%s°" % deg
+    want = float(int(deg))
+    if mn is not None:
+        s += mn + marks[0]
+        want += int(mn) / 60
+    if sc is not None:
+        s += sc + marks[1]
+        want += int(sc) / 3600
+    if dr:
+        s += dr
+        if dr in "SsWw":
+            want = -want
+    if lim is not None:
+        want = max(-lim, min(lim, want))
+    try:
+        got = astral.dms_to_float(s, lim)
+    except Exception as exc:  # noqa: BLE001
+        return {"clause": "well-formed DMS text is parsed", "text": s, "limit": lim, "got": repr(exc)}
+    if abs(got - want) > 1e-9:
+        return {"clause": "DMS value = ±(deg + min/60 + sec/3600)", "text": s, "limit": lim,
+                "got": got, "want": want}
+    return None
+
+
+def _c16_history(ops_spec):
+    """ops_spec: ('Observer'|'LocationInfo'|'Location', init args, [(field, value)…])"""
+    from astral import Observer, LocationInfo
+    from astral.location import Location
+    kind, init, ops = ops_spec
+    try:
+        if kind == "Observer":
+            o = Observer(*init)
+        elif kind == "LocationInfo":
+            o = LocationInfo("n", "r", "Europe/London", *init)
+        else:
+            o = Location(LocationInfo("n", "r", "Europe/London", *init))
+    except (ValueError, TypeError):
+        return None
+
+    def inv(where):
+        la, lo = o.latitude, o.longitude
+        if type(la) is not float or type(lo) is not float:
+            return "%s: latitude/longitude are %s/%s, not floats" % (where, type(la).__name__,
+                                                                      type(lo).__name__)
+        if not (-90.0 <= la <= 90.0) or not (-180.0 <= lo <= 180.0):
+            return "%s: latitude %r / longitude %r out of range" % (where, la, lo)
+        if kind == "Observer":
+            e = o.elevation
+            okf = type(e) is float or (type(e) is tuple and len(e) == 2
+                                      and all(type(x) is float for x in e))
+            if not okf:
+                return "%s: elevation %r is not a float or a pair of floats" % (where, e)
+        return None
+    r = inv("after construction")
+    if r:
+        return r
+    for i, (f, v) in enumerate(ops):
+        try:
+            setattr(o, f, v)
+        except (ValueError, TypeError):
+            pass
+        r = inv("after assignment #%d %s=%r" % (i, f, v))
+        if r:
+            return r
+        if f in ("latitude", "longitude") and isinstance(v, (int, float)) and not isinstance(v, bool) \
+                and math.isfinite(v):
+            lim = 90.0 if f == "latitude" else 180.0
+            if getattr(o, f) != max(-lim, min(lim, float(v))):
+                return "assigning %s=%r stored %r (expected the clamped value)" % (f, v, getattr(o, f))
+    return None
+
+
+def search_C16(rng, deadline, broken):
+    import astral
+    import corr_geo
+    # 1. the full (deg, min, sec, dir) product with 1/2-digit fields
+    degs = ["0", "7", "07", "51", "90", "180", "999", "12"]
+    mins = [None, "0", "5", "05", "31", "59", "99"]
+    secs = [None, "0", "9", "09", "30", "99"]
+    for deg in degs:
+        for mn in mins:
+            for sc in secs:
+                for dr in [None] + list("NSEWnsew"):
+                    for marks in (("′", "″"), ("'", '"')):
+                        for lim in (None, 90.0, 180.0):
+                            r = _c16_parse_case(deg, mn, sc, dr, marks, lim)
+                            if r:
+                                return r
+    # 2. numerals
+    for _ in range(3000):
+        x = rng.choice([rng.uniform(-400, 400), float(rng.randint(-400, 400)), rng.uniform(-1e9, 1e9)])
+        lim = rng.choice([None, 90.0, 180.0])
+        want = x if lim is None else max(-lim, min(lim, x))
+        for arg in (x, repr(x), " %r " % x):
+            try:
+                got = astral.dms_to_float(arg, lim)
+            except Exception as exc:  # noqa: BLE001
+                return {"clause": "a number / numeric string parses to itself", "arg": repr(arg),
+                        "limit": lim, "got": repr(exc)}
+            if got != want:
+                return {"clause": "a number / numeric string parses to itself (clamped)",
+                        "arg": repr(arg), "limit": lim, "got": got, "want": want}
+    # 3. rejection
+    for bad in ["", "x", "north", "°", "N51°", " 12°", "abc12", "--1", "12 deg", "1234°", "′5"]:
+        try:
+            got = astral.dms_to_float(bad, 90.0)
+            return {"clause": "text beginning with neither a number nor a degrees field is rejected",
+                    "text": bad, "got": got}
+        except ValueError:
+            pass
+        except Exception as exc:  # noqa: BLE001
+            return {"clause": "rejection is a ValueError", "text": bad, "got": repr(exc)}
+    # 4. assignment histories
+    while time.time() < deadline:
+        kind = rng.choice(["Observer", "LocationInfo", "Location"])
+        init = [corr_geo.rand_coord_arg(rng), corr_geo.rand_coord_arg(rng)]
+        if kind == "Observer":
+            init.append(corr_geo.rand_elev_arg(rng))
+        fields = ["latitude", "longitude"] + (["elevation"] if kind == "Observer" else [])
+        ops = []
+        for _ in range(rng.randint(1, 6)):
+            f = rng.choice(fields)
+            ops.append((f, corr_geo.rand_elev_arg(rng) if f == "elevation" else corr_geo.rand_coord_arg(rng)))
+        r = _c16_history((kind, init, ops))
+        if r:
+            return {"clause": r, "history": [kind, [repr(x) for x in init],
+                                             [[f, repr(v)] for f, v in ops]],
+                    "py": repr((kind, init, ops))}
+    return None
+
+
+def replay_C16(fi):
+    if "py" in fi:
+        return _c16_history(eval(fi["py"])) is None  # noqa: S307 - our own replay file
+    return False
+
+
+# ------------------------------------------------------------------ C17
+def _san(s):
+    return str(s).lower().replace(" ", "_")
+
+
+def _c17_episode(rng, steps):
+    """spec = the log of additions; returns a failure description or None"""
+    import astral.geocoder as geo
+    import corr_geo
+    builtin = rng.random() < 0.5
+    db = geo.database() if builtin else {}
+    log = []      # records in the order added: (name, region, tz)
+    if builtin:
+        for r in geo.all_locations(db):
+            log.append((r.name, r.region, r.timezone))
+    history = []
+    for _ in range(steps):
+        fields = corr_geo.rand_item(rng, None)
+        fields = (fields[0], fields[1], fields[2], rng.choice(corr_geo.COORDS[:6]),
+                  rng.choice(corr_geo.COORDS[:6]))
+        if "," in fields[0] or fields[0].startswith("#") or fields[0] != fields[0].strip():
+            continue
+        form = rng.randint(0, 2)
+        val = ",".join(fields) if form == 0 else ([",".join(fields)] if form == 1 else [tuple(fields)])
+        history.append(repr(val))
+        try:
+            geo.add_locations(val, db)
+        except Exception as exc:  # noqa: BLE001
+            return {"clause": "adding a well-formed record succeeds", "value": repr(val), "got": repr(exc)}
+        log.append((fields[0], fields[1], fields[2]))
+    got = sorted((r.name, r.region, r.timezone) for r in geo.all_locations(db))
+    if got != sorted(log):
+        extra = [x for x in got if x not in log][:3]
+        missing = [x for x in log if x not in got][:3]
+        return {"clause": "listing yields every stored record exactly once", "extra": extra,
+                "missing": missing, "history": history}
+    groups = {}
+    for n, r, t in log:
+        groups.setdefault(_san(t.split("/", 1)[0]), []).append((n, r, t))
+    # name,region lookups in several spellings
+    for n, r, t in rng.sample(log, min(len(log), 25)):
+        if not r or _san(n + "," + r) in groups:
+            continue
+        for q in (n + "," + r, (n + "," + r).upper(), (n + "," + r).lower().replace(" ", "_")):
+            if q.strip("\"'") != q or n.strip("\"'") != n or r.strip("\"'") != r:
+                continue
+            try:
+                res = geo.lookup(q, db)
+            except Exception as exc:  # noqa: BLE001
+                return {"clause": "'name,region' of a stored record is found", "query": q,
+                        "got": repr(exc), "history": history}
+            if isinstance(res, dict) or _san(res.name) != _san(n) or _san(res.region) != _san(r):
+                return {"clause": "'name,region' returns a record with that name and region",
+                        "query": q, "got": repr(res), "history": history}
+    # bare names: earliest added within the first group (in group-creation order) having it
+    order = []
+    for n, r, t in log:
+        g = _san(t.split("/", 1)[0])
+        if g not in order:
+            order.append(g)
+    for n, r, t in rng.sample(log, min(len(log), 25)):
+        if _san(n) in groups or n.strip("\"'") != n:
+            continue
+        exp = None
+        for g in order:
+            c = [x for x in groups[g] if _san(x[0]) == _san(n)]
+            if c:
+                exp = c[0]
+                break
+        try:
+            res = geo.lookup(n, db)
+        except Exception as exc:  # noqa: BLE001
+            return {"clause": "a bare stored name is found", "query": n, "got": repr(exc),
+                    "history": history}
+        if isinstance(res, dict) or (res.name, res.region, res.timezone) != exp:
+            return {"clause": "a bare name returns the earliest-added record of that name in its group",
+                    "query": n, "got": repr(res), "want": exp, "history": history}
+    for g in order:
+        try:
+            res = geo.lookup(g, db)
+        except Exception as exc:  # noqa: BLE001
+            return {"clause": "a group name returns that group", "query": g, "got": repr(exc)}
+        if not isinstance(res, dict):
+            return {"clause": "a group name returns that time-zone group", "query": g,
+                    "got": repr(res), "history": history}
+        if sorted((x.name, x.region, x.timezone) for l in res.values() for x in l) != sorted(groups[g]):
+            return {"clause": "the group holds exactly the records of that time-zone group",
+                    "query": g, "history": history}
+    for q in ("no such place", "london,nowhere-at-all", "zz,yy"):
+        try:
+            res = geo.lookup(q, db)
+            return {"clause": "unknown names raise KeyError", "query": q, "got": repr(res)}
+        except KeyError:
+            pass
+    fresh = geo.database()
+    n_fresh = sum(1 for _ in geo.all_locations(fresh))
+    n_rows = sum(1 for l in geo._LOCATION_INFO.split("\n") if l.strip() and l.strip()[0] != "#")
+    if n_fresh != n_rows:
+        return {"clause": "a freshly created database is independent of earlier additions",
+                "fresh_size": n_fresh, "history": history}
+    if not builtin and len(log) and sorted((r.name, r.region, r.timezone)
+                                           for r in geo.all_locations(geo.database())) != \
+            sorted((r.name, r.region, r.timezone) for r in geo.all_locations(fresh)):
+        return {"clause": "databases are independent", "history": history}
+    return None
+
+
+def search_C17(rng, deadline, broken):
+    i = 0
+    while time.time() < deadline:
+        i += 1
+        es = rng.randint(0, 2**31)
+        steps = rng.randint(0, 12)
+        r = _c17_episode(random.Random(es), steps)
+        if r:
+            r["episode_seed"] = es
+            r["steps"] = steps
+            return r
+        if i > 3000:
+            break
+    return None
+
+
+def replay_C17(fi):
+    return _c17_episode(random.Random(fi["episode_seed"]), fi["steps"]) is None
